@@ -1853,6 +1853,11 @@ impl TypeLayout {
             _ => (),
         }
 
+        // `a ?= b` stores b, which may be nil, into a: the type of a has to admit nil
+        if matches!(op, Op::Unwrap) && matches!(other, Optional(..)) && !matches!(lhs, Optional(..)) {
+            return None;
+        }
+
         if matches!(op, Eq | Neq) && lhs == other && lhs.supports_equ() {
             return Some(TypeLayout::Native(NativeType::Bool));
         }
